@@ -1108,7 +1108,23 @@ def r_json_cls(E):
     # the writer keys objects by class_as_simple_str == type(self).__name__
     rel3, w = pm.find_function("api_utils/system_to_json.py", "recursively_write_json_dict")
     res.instances += 1
-    if "class_as_simple_str" not in norm(w):
+    # anywhere in the writer's module (the function, or the class it is written with): an entry of the output filed under
+    # `<object>.class_as_simple_str` — d[key] / d.setdefault(key, …) / `key not in d`, the key possibly held in a local
+    _rel3, wtree = pm.module_tree("api_utils/system_to_json.py")
+    from ..astutil import fully_expanded as _fx_w
+
+    def _by_class(fn_):
+        for n_ in ast.walk(fn_):
+            k_ = None
+            if isinstance(n_, ast.Subscript):
+                k_ = n_.slice
+            elif isinstance(n_, ast.Call) and isinstance(n_.func, ast.Attribute) and n_.func.attr in ("setdefault", "get") and n_.args:
+                k_ = n_.args[0]
+            if k_ is not None and norm(_fx_w(k_, fn_)).endswith(".class_as_simple_str"):
+                return True
+        return False
+    keyed = any(_by_class(f_) for f_ in ast.walk(wtree) if isinstance(f_, ast.FunctionDef))
+    if not keyed:
         res.findings.append(Finding("R-JSON-CLS", "writer class key", "the writer no longer keys objects by class name",
                                     rel3, w.lineno, w.name))
     res.floor = 20
